@@ -25,28 +25,43 @@ open Note
 #print axioms C08_expiry_min_old_code_witness
 #print axioms Dl.minList_mem
 #print axioms Dl.minList_le
-#print axioms C08_complete_witness
+#print axioms C08_complete
 #print axioms C08_complete_partial
+#print axioms C08_delivery_in_progress
+#print axioms f4_repaired
+#print axioms C08_complete_old_code_witness
 #print axioms C08_stack_notified
 #print axioms C08_unaffected_partial
 #print axioms C08_ancestors_unaffected
 #print axioms f5a_prefix_ok
 #print axioms f5b_prefix_ok
 #print axioms f4_trace_ok
+#print axioms f4_prefix_ok
 #print axioms C09_holds_iff
 #print axioms C09_lock_order
 #print axioms C09_no_lock_cycle
 #print axioms C09_adoption
 #print axioms C09_adoption_root
+#print axioms C09_adoption_wakes
 #print axioms C09_free_leaves_no_child
-#print axioms C09_no_use_after_free_witness
+#print axioms C09_no_use_after_free
+#print axioms C09_parent_not_stale
+#print axioms C09_linked_or_locked_is_live
+#print axioms f7_repaired
+#print axioms C09_no_use_after_free_old_code_witness
 #print axioms C09_no_use_after_free_partial
 #print axioms C09_free_is_exclusive
-#print axioms C09_no_stuck_state_witness
+#print axioms C09_no_stuck_state
+#print axioms C09_wait_has_disconnectors
+#print axioms C09_disconnecting_count
+#print axioms f4_not_stuck
+#print axioms C09_no_stuck_state_old_code_witness
 #print axioms C09_no_stuck_state_partial
 #print axioms pc_idle_of_not_actor
 #print axioms f7_ok
+#print axioms f7_prefix_ok
 #print axioms f4_ok
+#print axioms f4p_ok
 #print axioms C19_note_new_fail
 #print axioms C19_parent_usable
 #print axioms State.ext'
